@@ -28,7 +28,27 @@ def _basic_index(s):
     return False
 
 
+# helpers whose RESULT may share storage with some of their parameters: {bare name: (parameter names, {aliased parameter names})};
+# filled by `register_helpers` from the repository's own functions (one call level)
+HELPER_RETURNS = {}
+
+
 def alias_of(e, state):
+    if isinstance(e, ast.Call):
+        f0 = e.func
+        nm0 = f0.id if isinstance(f0, ast.Name) else f0.attr if isinstance(f0, ast.Attribute) else None
+        if nm0 in HELPER_RETURNS and not (isinstance(f0, ast.Attribute) and isinstance(f0.value, ast.Name) and f0.value.id in ("np", "numpy")):
+            params, aliased = HELPER_RETURNS[nm0]
+            out = set()
+            for i, a in enumerate(e.args):
+                if i < len(params) and params[i] in aliased:
+                    out |= alias_of(a, state)
+            for k in e.keywords:
+                if k.arg in aliased:
+                    out |= alias_of(k.value, state)
+            return out
+    if isinstance(e, (ast.Tuple, ast.List)):
+        return set().union(*[alias_of(x, state) for x in e.elts]) if e.elts else set()
     if isinstance(e, ast.Name):
         return set(state.get(e.id, ()))
     if isinstance(e, ast.IfExp):
@@ -67,7 +87,7 @@ def _bind(target, val, state):
         state[target.id] = set(val)
     elif isinstance(target, (ast.Tuple, ast.List)):
         for t in target.elts:
-            _bind(t, set(), state)   # unpacking a call result: fresh; unpacking a tuple literal is handled by the caller
+            _bind(t, set(val), state)   # unpacking a call result: fresh unless the callee is a registered helper whose result aliases its arguments
 
 
 class Analysis:
@@ -76,6 +96,7 @@ class Analysis:
         names = [a.arg for a in fn_node.args.posonlyargs + fn_node.args.args + fn_node.args.kwonlyargs]
         self.params = [n for n in names if n not in ("self", "cls")] if params is None else list(params)
         self.sites = []   # (call node, {slot: alias set})
+        self.returned = set()   # parameters the returned value may alias
 
     def run(self, callee_names):
         self.callee_names = set(callee_names)
@@ -109,6 +130,11 @@ class Analysis:
 
     def stmt(self, st, state):
         if isinstance(st, (ast.FunctionDef, ast.AsyncFunctionDef, ast.ClassDef)):
+            return state
+        if isinstance(st, ast.Return):
+            if st.value is not None:
+                self.visit_calls(st.value, state)
+                self.returned |= alias_of(st.value, state)
             return state
         if isinstance(st, ast.Assign):
             self.visit_calls(st.value, state)
@@ -172,3 +198,218 @@ class Analysis:
 def construction_aliases(fn_node, callee_names, params=None):
     """[(call node, {slot: set(params it may alias)})] for every call to one of `callee_names` in the function."""
     return Analysis(fn_node, params).run(callee_names)
+
+
+def register_helpers(functions):
+    """Computes, for the given (name, FunctionDef) pairs, which parameters each function's RESULT may alias and registers the non-trivial
+    ones in HELPER_RETURNS (two rounds, so that a helper calling another helper is covered)."""
+    HELPER_RETURNS.clear()
+    for _ in range(2):
+        for name, node in functions:
+            an = Analysis(node)
+            an.run(set())
+            if an.returned:
+                params = [a.arg for a in node.args.posonlyargs + node.args.args if a.arg not in ("self", "cls")]
+                HELPER_RETURNS[name] = (params, set(an.returned))
+    return dict(HELPER_RETURNS)
+
+
+# --------------------------------------------------------------------------------------------------------------------------------
+# Shared local buffers: two live names bound to ONE freshly allocated array, one of them updated in place.
+#
+# The evaluator numbers values, not objects: after `empty = np.zeros(shape); return empty, empty` both results are the same TERM and the
+# caller's `tp += k` re-binds only `tp` in the term world, while at run time it also changes the array read later through the other name.
+# Decided on the code's shape: abstract objects are the allocation sites of numpy calls; names carry may-point-to sets; a helper of the same
+# class / module is summarised by which positions of its returned tuple may be one object.
+
+_INPLACE_METHODS = {"sort", "fill", "put", "itemset", "partition", "resize", "setfield", "byteswap"}
+
+
+def _np_call(e):
+    return isinstance(e, ast.Call) and isinstance(e.func, ast.Attribute) and isinstance(e.func.value, ast.Name) and e.func.value.id in ("np", "numpy")
+
+
+class _Objects:
+    def __init__(self, summaries):
+        self.summaries = summaries   # {helper name: [set(positions sharing one array), ...]}
+        self.findings = []
+
+    def objs(self, e, st):
+        if isinstance(e, ast.Name):
+            return set(st.get(e.id, ()))
+        if isinstance(e, ast.IfExp):
+            return self.objs(e.body, st) | self.objs(e.orelse, st)
+        if isinstance(e, ast.NamedExpr):
+            return self.objs(e.value, st)
+        if _np_call(e):
+            if e.func.attr in VIEW_FUNCS and e.args:
+                return self.objs(e.args[0], st) | {("site", e.lineno, e.col_offset)}
+            return {("site", e.lineno, e.col_offset)}
+        if isinstance(e, ast.Call) and isinstance(e.func, ast.Attribute) and e.func.attr in VIEW_METHODS:
+            return self.objs(e.func.value, st)
+        if isinstance(e, ast.Subscript) and _basic_index(e.slice):
+            return self.objs(e.value, st)
+        return set()
+
+    def tuple_objs(self, e, st, n):
+        """Per-position object sets of an expression unpacked into n targets."""
+        if isinstance(e, (ast.Tuple, ast.List)) and len(e.elts) == n:
+            return [self.objs(x, st) for x in e.elts]
+        if isinstance(e, ast.IfExp):
+            a, b = self.tuple_objs(e.body, st, n), self.tuple_objs(e.orelse, st, n)
+            return [x | y for x, y in zip(a, b)]
+        if isinstance(e, ast.Call):
+            f = e.func
+            nm = f.id if isinstance(f, ast.Name) else f.attr if isinstance(f, ast.Attribute) else None
+            out = [set() for _ in range(n)]
+            for g, grp in enumerate(self.summaries.get(nm, ())):
+                for i in grp:
+                    if i < n:
+                        out[i].add(("shared", e.lineno, e.col_offset, g, nm))
+            return out
+        return [set() for _ in range(n)]
+
+
+def _returned_sharing(fn_node):
+    """Groups of positions of a returned tuple that may be ONE numpy-allocated array (`return empty, empty`)."""
+    groups = []
+    an = _Objects({})
+
+    def block(body, st):
+        for x in body:
+            st = stmt(x, st)
+        return st
+
+    def stmt(x, st):
+        if isinstance(x, ast.Return) and isinstance(x.value, ast.Tuple):
+            sets = [an.objs(v, st) for v in x.value.elts]
+            for i in range(len(sets)):
+                grp = {j for j in range(len(sets)) if sets[i] & sets[j]}
+                if len(grp) > 1 and grp not in groups:
+                    groups.append(grp)
+            return st
+        if isinstance(x, ast.Assign):
+            v = an.objs(x.value, st)
+            for t in x.targets:
+                if isinstance(t, ast.Name):
+                    st[t.id] = set(v)
+            return st
+        if isinstance(x, ast.If):
+            a = block(x.body, {k: set(v) for k, v in st.items()})
+            b = block(x.orelse, {k: set(v) for k, v in st.items()})
+            return _join(a, b)
+        if isinstance(x, (ast.For, ast.While, ast.With, ast.Try)):
+            for sub in ("body", "orelse", "finalbody"):
+                st = block(getattr(x, sub, []) or [], st)
+            return st
+        return st
+    block(fn_node.body, {})
+    return groups
+
+
+def shared_buffer_findings(fn_node, helpers):
+    """[(line, text)] for in-place updates of a local array that a second, later-read name may also be bound to.
+    helpers: {bare name: FunctionDef} of the functions callable from fn_node whose returned tuples are summarised."""
+    summaries = {}
+    for nm, node in helpers.items():
+        g = _returned_sharing(node)
+        if g:
+            summaries[nm] = g
+    an = _Objects(summaries)
+    loads = {}
+    for n in ast.walk(fn_node):
+        if isinstance(n, ast.Name) and isinstance(n.ctx, ast.Load):
+            loads.setdefault(n.id, []).append(n.lineno)
+    out = []
+
+    def updated(name, st, line, how, in_loop):
+        mine = st.get(name, set())
+        if not mine:
+            return
+        for other, objs in st.items():
+            if other == name or not (objs & mine):
+                continue
+            later = [ln for ln in loads.get(other, ()) if ln > line or in_loop]
+            if later:
+                why = sorted(objs & mine)[0]
+                src = ("the array returned twice by %s()" % why[4]) if why[0] == "shared" else "the array allocated at line %d" % why[1]
+                out.append((line, "%s of `%s` also changes `%s` (read again at line %d): both names may be bound to %s" % (how, name, other, later[0], src)))
+
+    # path-sensitive over branches (a disjunction of states, joined only beyond 64): `if c: a, b = x, y  else: a, b = y, x` never binds
+    # a and b to one array on the same path
+    def copy(st):
+        return {k: set(v) for k, v in st.items()}
+
+    def norm(states):
+        uniq = []
+        for s_ in states:
+            if s_ not in uniq:
+                uniq.append(s_)
+        if len(uniq) > 64:
+            j = {}
+            for s_ in uniq:
+                j = _join(j, s_)
+            return [j]
+        return uniq
+
+    def block(body, states, in_loop):
+        for x in body:
+            states = norm([r for st in states for r in stmt(x, st, in_loop)])
+        return states
+
+    def stmt(x, st, in_loop):
+        if isinstance(x, (ast.FunctionDef, ast.AsyncFunctionDef, ast.ClassDef)):
+            return [st]
+        if isinstance(x, ast.Assign):
+            if len(x.targets) == 1 and isinstance(x.targets[0], (ast.Tuple, ast.List)) and all(isinstance(t, ast.Name) for t in x.targets[0].elts):
+                sets = an.tuple_objs(x.value, st, len(x.targets[0].elts))
+                for t, s_ in zip(x.targets[0].elts, sets):
+                    st[t.id] = set(s_)
+                return [st]
+            v = an.objs(x.value, st)
+            for t in x.targets:
+                if isinstance(t, ast.Name):
+                    st[t.id] = set(v)
+                elif isinstance(t, ast.Subscript) and isinstance(t.value, ast.Name):
+                    updated(t.value.id, st, x.lineno, "the element store", in_loop)
+            return [st]
+        if isinstance(x, ast.AugAssign):
+            if isinstance(x.target, ast.Name):
+                updated(x.target.id, st, x.lineno, "the in-place update `%s`" % ast.unparse(x)[:50], in_loop)
+            elif isinstance(x.target, ast.Subscript) and isinstance(x.target.value, ast.Name):
+                updated(x.target.value.id, st, x.lineno, "the in-place element update", in_loop)
+            return [st]
+        if isinstance(x, ast.Expr) and isinstance(x.value, ast.Call):
+            c = x.value
+            if isinstance(c.func, ast.Attribute) and isinstance(c.func.value, ast.Name) and c.func.attr in _INPLACE_METHODS:
+                updated(c.func.value.id, st, x.lineno, "%s()" % c.func.attr, in_loop)
+            for k in c.keywords:
+                if k.arg == "out" and isinstance(k.value, ast.Name):
+                    updated(k.value.id, st, x.lineno, "out=", in_loop)
+            return [st]
+        if isinstance(x, ast.If):
+            return block(x.body, [copy(st)], in_loop) + block(x.orelse, [copy(st)], in_loop)
+        if isinstance(x, (ast.For, ast.While)):
+            states = [st]
+            for _ in range(2):
+                states = norm(states + block(x.body, [copy(s_) for s_ in states], True))
+            return norm(states + block(x.orelse, [copy(s_) for s_ in states], in_loop))
+        if isinstance(x, ast.With):
+            return block(x.body, [st], in_loop)
+        if isinstance(x, ast.Try):
+            states = block(x.body, [copy(st)], in_loop)
+            for h in x.handlers:
+                states = states + block(h.body, [copy(st)], in_loop)
+            return block(x.finalbody, block(x.orelse, norm(states), in_loop), in_loop)
+        if isinstance(x, (ast.Return, ast.Raise)):
+            return []
+        return [st]
+
+    block(fn_node.body, [{}], False)
+    seen = set()
+    res = []
+    for f in out:
+        if f not in seen:
+            seen.add(f)
+            res.append(f)
+    return res
